@@ -92,7 +92,13 @@ def user_macro_pairs(rng, v='uv'):
         "(defmacro m2 args `(do ,@args))",
         "(defmacro m2 [x y] (let ([t (gensym)]) `(let ([,t ,x]) (list ,t ,t ,y))))",
     ])
-    return [('user-macro', [defs], f'(m2 {a} {b})', f"(eval (macroexpand '(m2 {a} {b})))"),
+    return [('user-macro-depths', ['(define hits 0)', '(defmacro hit! [] `(set [hits (+ hits 1)]))', '(defun probe [n] (hit!) n)', '(probe 7)', '(hit!)'],
+             '(do (probe 7) hits)', '(+ 3 0)'),
+            ('user-macro-depths', ['(define hits 0)', '(defmacro hit! [] `(set [hits (+ hits 1)]))', '(defun probe [n] (hit!) n)',
+                                   '(let ([q 1]) (let ([r 2]) (hit!)))', '(probe 7)'],
+             '(do (probe 7) hits)', '(+ 3 0)'),
+            ('user-macro-renamed', [defs, '(define m3 m2)'], f'(m3 {a} {b})', f"(eval (macroexpand '(m2 {a} {b})))"),
+            ('user-macro', [defs], f'(m2 {a} {b})', f"(eval (macroexpand '(m2 {a} {b})))"),
             ('user-macro-unevaluated', [defs], f"(do (macroexpand '(m2 {a} {b})) 0)", '(+ 0 0)')]
 
 
@@ -198,6 +204,10 @@ def run(tier, seed, replay=None):
     results = lib.run_sessions(cases)
     for case, impl, mout, cmp in results:
         rep.evaluations += 1
+        r_ = lib.recheck_crash(rep, case, impl, mout, cmp)
+        if r_ is None:
+            continue
+        case, impl, mout, cmp = r_
         if case['role'] != 'lib':
             continue
         if cmp is None:
